@@ -998,12 +998,20 @@ class Crystal(object):
         # n_i = a_i.G/(2 pi); at least the historical range -3..3
         Gmax = sum(np.sqrt(np.dot(self.reciplatt[:, j], self.reciplatt[:, j])) for j in range(self.dim))
         nmax = [max(3, int(np.ceil(np.sqrt(self.metric[i, i]) * Gmax / (2 * np.pi) - 1e-8))) for i in range(self.dim)]
-        for nv in itertools.product(*[range(-n, n + 1) for n in nmax]):
-            if all(n == 0 for n in nv): continue
-            vec = np.dot(self.reciplatt, nv)
-            if self.inBZ(vec, BZG, threshold=0): BZG.append(vec)
-        # ... and use a list comprehension to only keep those that still remain
-        return np.array([0.5 * vec for vec in BZG if self.inBZ(vec, BZG, threshold=0)])
+        # all candidates, numbered in the order of itertools.product; beyond the historical range only vectors short enough
+        # to be facets. They are tried shortest first, so that the list (and the cost) stays small for strongly sheared
+        # cells; the facets found do not depend on that order and are returned in the order of their numbers
+        nvlist = np.stack(np.meshgrid(*[np.arange(-n, n + 1) for n in nmax], indexing='ij'), axis=-1).reshape(-1, self.dim)
+        veclist = np.dot(nvlist, self.reciplatt.T)
+        vec2 = np.sum(veclist * veclist, axis=1)
+        keep = ((np.abs(nvlist).max(axis=1) <= 3) | (vec2 <= Gmax * Gmax * (1 + 1e-8))) & np.any(nvlist != 0, axis=1)
+        BZGnum = []
+        for n in np.flatnonzero(keep)[np.argsort(vec2[keep], kind='stable')]:
+            if self.inBZ(veclist[n], BZG, threshold=0):
+                BZG.append(veclist[n])
+                BZGnum.append(n)
+        # ... and only keep those that still remain
+        return np.array([0.5 * veclist[n] for n in sorted(BZGnum) if self.inBZ(veclist[n], BZG, threshold=0)])
 
     def gengroup(self):
         """
